@@ -28,7 +28,7 @@ THOROUGH_CLASSES = (["tiny", "small", "wide", "tall"], [0.45, 0.3, 0.15, 0.1])
 
 
 def n_fixed(tier):
-    return 3
+    return 4
 
 
 def fixed_specs(tier, ctx):
@@ -44,7 +44,12 @@ def fixed_specs(tier, ctx):
             {"cfg": {"klass": "plain"}, "ops": [{"op": "gen_cli", "params": tall, "solve": True}]},
             {"cfg": {"klass": "plain"}, "ops": [{"op": "gen_cli", "params": huge, "solve": False},
                                                 {"op": "gen_cli", "params": dict(huge, seed=5, width=30, length=30), "solve": False,
-                                                 "same_process": True}]}]
+                                                 "same_process": True}]},
+            # extreme shapes: very long, very wide (load + structure only)
+            {"cfg": {"klass": "plain"}, "ops": [{"op": "gen_cli", "params": dict(huge, seed=6, width=1, length=3500), "solve": False},
+                                                {"op": "gen_cli", "params": dict(huge, seed=7, width=130, length=2), "solve": False},
+                                                {"op": "gen_cli", "params": dict(huge, seed=8, width=3000, length=1,
+                                                                                 force_down=False), "solve": False}]}]
 
 
 def _manual(rng):
